@@ -376,26 +376,7 @@ func genKv(r *rand.Rand, tier string) kvInput {
 			if cn == "s1.c2" {
 				h = 0
 			}
-			vp := &ViewParams{}
-			keys := []string{`1`, `2`, `"k2"`, `"k1"`, `[1,"k2"]`, `[1]`, `[2,1]`, `0`}
-			switch r.Intn(8) {
-			case 0:
-				vp.Stale = true
-			case 1:
-				vp.Descending = true
-			case 2:
-				vp.Limit = 1 + r.Intn(3)
-			case 3:
-				vp.StartKey = sp(pick(r, keys))
-			case 4:
-				vp.StartKey, vp.EndKey = sp(pick(r, keys)), sp(pick(r, keys))
-				vp.ExclusiveEnd = r.Intn(2) == 0
-			case 5:
-				vp.Key = sp(pick(r, keys))
-			case 6:
-				vp.Descending, vp.Limit = true, 2
-				vp.StartKey = sp(pick(r, keys))
-			}
+			vp := genViewParams(r)
 			in.Ops = append(in.Ops, Step{Kind: "view", Coll: cn, Handle: h, DDoc: "dd", View: fmt.Sprintf("v%d", r.Intn(3)), VP: vp, Clock: next()})
 		case x == 9 && in.OnDisk:
 			in.Ops = append(in.Ops, Step{Kind: "reopen", Clock: next()})
@@ -404,6 +385,7 @@ func genKv(r *rand.Rand, tier string) kvInput {
 			if r.Intn(3) == 0 {
 				st.Plus = 1
 			}
+			st.KeysOnly = r.Intn(4) == 0
 			in.Ops = append(in.Ops, st)
 		default:
 			cn := pick(r, live)
@@ -465,6 +447,10 @@ func genMotif(r *rand.Rand, m int, in *kvInput, exists map[string]bool, hot []st
 	key := pick(r, hot)
 	kv := func(op *KOp) { in.Ops = append(in.Ops, Step{Kind: "kv", Coll: cn, Key: key, Handle: h, Op: op, Clock: next()}) }
 	view := func(hh int, name string, vp *ViewParams) {
+		if !vp.Stale && r.Intn(3) == 0 {
+			vp = genViewParams(r)
+			vp.Stale = false
+		}
 		in.Ops = append(in.Ops, Step{Kind: "view", Coll: cn, Handle: hh, DDoc: "dd", View: name, VP: vp, Clock: next()})
 	}
 	xattrWrite := func() *KOp {
@@ -718,6 +704,32 @@ func genMotif(r *rand.Rand, m int, in *kvInput, exists map[string]bool, hot []st
 		view(h, "v1", &ViewParams{})
 		in.Ops = append(in.Ops, Step{Kind: "dump", Coll: cn, Key: key, Start: "zero", Clock: next()})
 	}
+}
+
+// view query parameters: every combination of stale, descending, limit, startkey, endkey, inclusive_end, key
+func genViewParams(r *rand.Rand) *ViewParams {
+	vp := &ViewParams{}
+	keys := []string{`1`, `2`, `"k2"`, `"k1"`, `"k3"`, `[1,"k2"]`, `[1]`, `[2,1]`, `[1,1]`, `0`}
+	if r.Intn(3) == 0 {
+		return vp
+	}
+	vp.Stale = r.Intn(8) == 0
+	vp.Descending = r.Intn(3) == 0
+	if r.Intn(4) == 0 {
+		vp.Limit = 1 + r.Intn(3)
+	}
+	if r.Intn(6) == 0 {
+		vp.Key = sp(pick(r, keys))
+		return vp
+	}
+	if r.Intn(2) == 0 {
+		vp.StartKey = sp(pick(r, keys))
+	}
+	if r.Intn(2) == 0 {
+		vp.EndKey = sp(pick(r, keys))
+		vp.ExclusiveEnd = r.Intn(2) == 0
+	}
+	return vp
 }
 
 func runKv(cfg runCfg, emit func(Case)) error {
